@@ -1691,42 +1691,9 @@ impl ArchiveBuilder {
 
     /// Encrypt data in place
     pub fn encrypt_data(&self, data: &mut [u8], key: u32) {
-        if data.is_empty() || key == 0 {
-            return;
-        }
-
-        // Process full u32 chunks
-        let (chunks, remainder) = data.split_at_mut((data.len() / 4) * 4);
-
-        // Convert chunks to u32 values, encrypt, and write back
-        let mut u32_buffer = Vec::with_capacity(chunks.len() / 4);
-        for chunk in chunks.chunks_exact(4) {
-            u32_buffer.push(u32::from_le_bytes([chunk[0], chunk[1], chunk[2], chunk[3]]));
-        }
-
-        encrypt_block(&mut u32_buffer, key);
-
-        // Write encrypted u32s back to bytes
-        for (i, &encrypted) in u32_buffer.iter().enumerate() {
-            let bytes = encrypted.to_le_bytes();
-            chunks[i * 4..(i + 1) * 4].copy_from_slice(&bytes);
-        }
-
-        // Handle remaining bytes
-        if !remainder.is_empty() {
-            let mut last_dword = [0u8; 4];
-            last_dword[..remainder.len()].copy_from_slice(remainder);
-
-            let mut last_u32 = u32::from_le_bytes(last_dword);
-            encrypt_block(
-                std::slice::from_mut(&mut last_u32),
-                key.wrapping_add((chunks.len() / 4) as u32),
-            );
-
-            let encrypted_bytes = last_u32.to_le_bytes();
-            remainder.copy_from_slice(&encrypted_bytes[..remainder.len()]);
-        }
+        encrypt_file_data(data, key);
     }
+
     /// Encrypt u32 data in place
     fn encrypt_data_u32(&self, data: &mut [u32], key: u32) {
         encrypt_block(data, key);
@@ -2296,6 +2263,50 @@ impl ArchiveBuilder {
         let written_size = final_data.len() as u64;
         writer.write_all(&final_data)?;
         Ok((written_size, md5))
+    }
+}
+
+/// Encrypt file data in place: the inverse of [`crate::archive::decrypt_file_data`].
+///
+/// The block keeps its length. Full dwords are enciphered as one stream; a tail
+/// shorter than a dword is enciphered on its own with `key + dword_count`, which is
+/// what the reader undoes. Shared by `ArchiveBuilder` and `MutableArchive` so that
+/// both store encrypted blocks the same way.
+pub(crate) fn encrypt_file_data(data: &mut [u8], key: u32) {
+    if data.is_empty() || key == 0 {
+        return;
+    }
+
+    // Process full u32 chunks
+    let (chunks, remainder) = data.split_at_mut((data.len() / 4) * 4);
+
+    // Convert chunks to u32 values, encrypt, and write back
+    let mut u32_buffer = Vec::with_capacity(chunks.len() / 4);
+    for chunk in chunks.chunks_exact(4) {
+        u32_buffer.push(u32::from_le_bytes([chunk[0], chunk[1], chunk[2], chunk[3]]));
+    }
+
+    encrypt_block(&mut u32_buffer, key);
+
+    // Write encrypted u32s back to bytes
+    for (i, &encrypted) in u32_buffer.iter().enumerate() {
+        let bytes = encrypted.to_le_bytes();
+        chunks[i * 4..(i + 1) * 4].copy_from_slice(&bytes);
+    }
+
+    // Handle remaining bytes
+    if !remainder.is_empty() {
+        let mut last_dword = [0u8; 4];
+        last_dword[..remainder.len()].copy_from_slice(remainder);
+
+        let mut last_u32 = u32::from_le_bytes(last_dword);
+        encrypt_block(
+            std::slice::from_mut(&mut last_u32),
+            key.wrapping_add((chunks.len() / 4) as u32),
+        );
+
+        let encrypted_bytes = last_u32.to_le_bytes();
+        remainder.copy_from_slice(&encrypted_bytes[..remainder.len()]);
     }
 }
 
